@@ -375,10 +375,12 @@ def check_del(ctx, m, rule):
     steps = [w for w in m.writes(S) if w[1] == 'step']
     if not steps:
         raise AnalysisBroken('%s: the cluster after the deleted slot is not walked' % m.label)
-    L = m.loop_of(steps[0][0])
-    if L is None:
+    inloop = [w for w in steps if m.loop_of(w[0]) is not None]
+    if not inloop:
         raise AnalysisBroken('%s: the cursor advance is not inside a loop' % m.label)
-    bad = [w[0] for w in steps if w[2] != 1 or m.wrap_after(w[0], S) is None or m.loop_of(w[0]) is not L or not LP.unconditional_in(w[0] if w[0].parent.k == 'CompoundStmt' else _stmt_of(w[0]), L) and m.wrap_after(w[0], S) is None]
+    L = m.loop_of(inloop[0][0])
+    # every advance (the one that enters the cluster may sit before the loop) is a single step followed by the wrap test
+    bad = [w[0] for w in steps if w[2] != 1 or m.wrap_after(w[0], S) is None or (m.loop_of(w[0]) is not None and m.loop_of(w[0]) is not L)]
     ctx.check(not bad, rule, 'table/del/%s/wraps' % m.label, (bad[0] if bad else steps[0][0]).loc(), 'the repair cursor advances one slot per iteration and wraps at items + capacity',
               'the repair cursor is advanced at %s without wrapping at items + capacity' % (bad[0].loc() if bad else ''))
     # the loop is left only at the first EMPTY slot
@@ -567,17 +569,22 @@ def check_insert(ctx, m, rule):
         raise AnalysisBroken('%s: growth test `%s` not a comparison' % (m.label, gd[0][0].text()[:60]))
     # the table must grow (a) when it is empty with capacity 0 and (b) before it can become full: evaluated on the
     # boundary valuations count in {0, capacity-1, capacity} for capacity in {0, 1, 2, 8, 1024}
+    from . import minieval
+
+    def ev(e, count, cap):
+        try:
+            return _eval_members(e, {'count': count, 'capacity': cap})
+        except AnalysisBroken:
+            # the value is computed through locals (a named new capacity assigned in an if): evaluate the backward slice
+            return minieval.value_at(m.db, e, members={'this->count': count, 'this->capacity': cap})
+
     def holds(count, cap):
-        env = {}
-        for x in c.walk():
-            if x.k == 'MemberExpr' and x.n in ('count', 'capacity'):
-                pass
-        return _eval_members(c, {'count': count, 'capacity': cap})
+        return ev(c, count, cap)
     grow_empty = holds(0, 0)
     # capacities the table can have: 0 and whatever the growth expression produces from there
     caps = [0]
     for _ in range(12):
-        caps.append(_eval_members(rz[0].args[0], {'count': caps[-1], 'capacity': caps[-1]}))
+        caps.append(ev(rz[0].args[0], caps[-1], caps[-1]))
     newcap = list(zip(caps[1:], caps[:-1]))
     never_full = all(holds(cap - 1, cap) for cap in caps[1:] if cap > 0)     # using the last free slot must have triggered growth first
     ok = bool(grow_empty) and never_full and all(n_ > cap and n_ >= 2 for n_, cap in newcap)
